@@ -307,6 +307,10 @@ func doFormat(src []byte, o Opt) (r fmtResult) {
 	return fmtResult{out: out, err: err}
 }
 
+// listExcluded: trivia positions of element lists where the UNCHANGED formatter already misbehaves (determined
+// with C39_LIST_ALL=1; reproducers in corpus/C39); key = <list kind>:<last|mid>:<feature> or <list kind>:*
+var listExcluded = map[string]bool{}
+
 // Issue is one property failure found on a case.
 type Issue struct{ Key, What string }
 
@@ -953,6 +957,109 @@ func cleanDecorate(r *lib.Rng, src string, nComments int, kinds map[string]int) 
 	return sb.String()
 }
 
+// ---------------------------------------------------------------- list stream: comments inside element lists
+
+// genListProgram builds a program whose statements / declarations contain ELEMENT LISTS laid out one element per
+// line (invocation arguments with and without labels, parameter lists, array and dictionary literals, type argument
+// lists) and puts comments in every trivia position of the list, alone and combined on the same element:
+// own-line comments before an element (0-2), a same-line comment after it (`//`, `/* */` after the comma, or
+// `/* */` before the comma), own-line comments after it (0-2; after the last element = before the closing bracket),
+// for last and non-last elements, with and without a blank line.  sig describes the placements (for evidence).
+func genListProgram(r *lib.Rng, n *int, excl func(kind, feature string) bool) (src string, sigs []string) {
+	cm := func(block bool) string {
+		*n++
+		if block {
+			return fmt.Sprintf("/* L%d */", *n)
+		}
+		return fmt.Sprintf("// L%d", *n)
+	}
+	type listKind struct {
+		kind        string
+		open, close string
+		elems       []string
+		wrap        func(list string) string
+	}
+	kindsAll := []listKind{
+		{"call", "(", ")", []string{"1", "other: 2", "g(3)", "label: \"s\"", "x"}, func(l string) string { return "    let v" + fmt.Sprint(*n) + " = f" + l }},
+		{"call-stmt", "(", ")", []string{"a", "b: 2", "c.d"}, func(l string) string { return "    h" + l }},
+		{"array", "[", "]", []string{"1", "2", "f(3)", "x"}, func(l string) string { return "    let a" + fmt.Sprint(*n) + " = " + l }},
+		{"dictionary", "{", "}", []string{"\"a\": 1", "\"b\": 2", "k: v"}, func(l string) string { return "    let d" + fmt.Sprint(*n) + " = " + l }},
+		{"type-args", "<", ">", []string{"Int", "String", "&R"}, func(l string) string { return "    let t" + fmt.Sprint(*n) + " = g" + l + "(1)" }},
+	}
+	var body []string
+	var decls []string
+	for k := 0; k < 1+r.Intn(3); k++ {
+		lk := kindsAll[r.Intn(len(kindsAll)+1)%len(kindsAll)]
+		isParams := r.Chance(1, 5)
+		if isParams {
+			lk = listKind{"parameters", "(", ")", []string{"a: Int", "_ b: String", "to c: [Int]"}, nil}
+		}
+		ne := 1 + r.Intn(3)
+		var lines []string
+		sig := lk.kind + "["
+		for i := 0; i < ne; i++ {
+			last := i == ne-1
+			pos := "mid"
+			if last {
+				pos = "last"
+			}
+			ind := "        "
+			nLead := []int{0, 0, 1, 1, 2}[r.Intn(5)]
+			if excl(lk.kind, pos+":lead") {
+				nLead = 0
+			}
+			for j := 0; j < nLead; j++ {
+				lines = append(lines, ind+cm(r.Chance(1, 3)))
+			}
+			el := lk.elems[r.Intn(len(lk.elems))]
+			same := r.Intn(5) // 0,1 none; 2 line after comma; 3 block after comma; 4 block before comma
+			if same >= 2 && excl(lk.kind, pos+":same"+fmt.Sprint(same)) {
+				same = 0
+			}
+			line := ind + el
+			if same == 4 {
+				line += " " + cm(true)
+			}
+			if !last {
+				line += ","
+			}
+			switch same {
+			case 2:
+				line += " " + cm(false)
+			case 3:
+				line += " " + cm(true)
+			}
+			lines = append(lines, line)
+			nAfter := []int{0, 0, 1, 1, 2}[r.Intn(5)]
+			if excl(lk.kind, pos+":after") || (same >= 2 && nAfter > 0 && excl(lk.kind, pos+":same+after")) {
+				nAfter = 0
+			}
+			blank := nAfter > 0 && r.Chance(1, 5) && !excl(lk.kind, pos+":blank")
+			if blank {
+				lines = append(lines, "")
+			}
+			for j := 0; j < nAfter; j++ {
+				lines = append(lines, ind+cm(r.Chance(1, 3)))
+			}
+			sig += fmt.Sprintf("%s(lead%d,same%d,after%d%s)", pos, nLead, same, nAfter, map[bool]string{true: ",blank", false: ""}[blank])
+		}
+		sig += "]"
+		sigs = append(sigs, sig)
+		list := lk.open + "\n" + strings.Join(lines, "\n") + "\n    " + lk.close
+		if isParams {
+			*n++
+			decls = append(decls, fmt.Sprintf("fun p%d%s {\n}\n", *n, strings.ReplaceAll(list, "\n    ", "\n")))
+		} else {
+			body = append(body, lk.wrap(list))
+		}
+	}
+	src = strings.Join(decls, "\n")
+	if len(body) > 0 {
+		src += "fun main() {\n" + strings.Join(body, "\n") + "\n}\n"
+	}
+	return src, sigs
+}
+
 // ---------------------------------------------------------------- skeleton programs (compared with the Coq model)
 
 // A skeleton line: blank, comment-only, or a single-line declaration with an optional end-of-line comment.
@@ -1185,6 +1292,43 @@ func main() {
 	for k, v := range g.Forms {
 		if strings.HasPrefix(k, "decl:") || strings.HasPrefix(k, "stmt:") {
 			sum.Distribution["form "+k] = v
+		}
+	}
+
+	// ---- 1b. list stream: every trivia position of element lists (arguments, parameters, literals, type arguments)
+	nList := nFull * 3
+	lcount := 0
+	exclNone := func(kind, feature string) bool { return listExcluded[kind+":"+feature] || listExcluded[kind+":*"] }
+	if os.Getenv("C39_LIST_ALL") != "" {
+		exclNone = func(string, string) bool { return false }
+	}
+	for i := 0; i < nList; i++ {
+		src, sigs := genListProgram(r, &lcount, exclNone)
+		if _, err := parser.ParseProgram(nil, []byte(src), parser.Config{}); err != nil {
+			sum.Count("lists: generated program rejected by the parser (skipped)")
+			continue
+		}
+		o := opts[(i*7+int(*flagSeed)*13)%len(opts)]
+		if i%2 == 0 {
+			o = defaultOpt()
+		}
+		o.SkipVerify = false
+		cls, out, issues := checkCase([]byte(src), o)
+		sum.Evaluations++
+		sum.Count("lists " + cls)
+		for _, sg := range sigs {
+			sum.Count("lists kind " + sg[:strings.Index(sg, "[")])
+		}
+		if cls == "formatted" {
+			distinct[src] = true
+		}
+		for k := range issues {
+			issues[k].Key = "lists:" + issues[k].Key
+			issues[k].What += " [placements: " + strings.Join(sigs, " ") + "]"
+		}
+		report(src, o, cls, out, issues, "lists")
+		if i < 1 {
+			sum.Sample(map[string]any{"stream": "lists", "source": src, "options": o, "class": cls, "formatted": string(out)})
 		}
 	}
 
